@@ -431,10 +431,15 @@ package prunner
 //@   ensures  [notFound] res != nil ==> res == ErrJobNotFound
 //@   ensures  [readonly] unchangedHeap()
 
+// jobs handed to the callback of IterateJobs (ghost, set where the callback is called)
+//@ ghost $shown array Bool
 //@ func (*PipelineRunner).IterateJobs
 //@   safety
 //@   lockmode none
-//@   ensures  [readonly] unchangedHeap()
+//@   ensures  [readonly] unchangedHeap("$shown")
+//@   at call param process#1: ghost $shown[pJob] := true
+//@   loop 1 invariant [C15.listAll] forall id uuid.UUID :: $seen[id] ==> $shown[r.jobsByID[id]]
+//@   ensures  [C15.listAll] forall id uuid.UUID :: (id in r.jobsByID) ==> $shown[r.jobsByID[id]]
 
 //@ pure infoDefined(e *PipelineInfo, r *PipelineRunner) bool = (e.Pipeline in r.defs.Pipelines)
 //@ pure infoSched(e *PipelineInfo, r *PipelineRunner) bool = (e.Schedulable <==> (admit(r, e.Pipeline, false) != scheduleActionNoQueue && admit(r, e.Pipeline, false) != scheduleActionQueueFull))
@@ -673,7 +678,7 @@ package prunner
 //@ property C11: prunner.(*PipelineRunner).requestPersist/ensures[req] prunner.*/ensures[C11.*] prunner.*/assert[C11.*] prunner.(*PipelineRunner).Shutdown/loop* prunner.(*PipelineRunner).Shutdown/monitor[RI] prunner.(*PipelineRunner).Shutdown/ensures[T] prunner.(*PipelineRunner).Shutdown$1/* prunner/writers[PipelineRunner.isShuttingDown] prunner.*/guarantee[gate] prunner.(*PipelineRunner).Shutdown/guarantee[T] prunner/interference[captured] prunner.(*PipelineRunner).Shutdown$1/frame* prunner.*/guarantee[noStart] prunner.*/guarantee[noNew] prunner.*/monitor[RI] prunner.*/ensures[ri] prunner.*/call-pre[*.ri]* prunner.(*PipelineRunner).startJobsOnWaitList/*[C11.*] prunner.(*PipelineRunner).SaveToStore/loop*[C11.noNew]
 //@ property C12: prunner.(*pipelineJobsSorter).Len/ensures* prunner.(*pipelineJobsSorter).Swap/ensures* prunner.(*pipelineJobsSorter).*/safety prunner.(*pipelineJobsSorter).Less/call-pre* prunner.*/ensures[C12.*] prunner.(*PipelineRunner).SaveToStore/* prunner.removeJobFromList/* prunner.byCreationTimeDesc/ensures* prunner.*/assert[dist*] prunner.*/monitor[RI] prunner.(*PipelineRunner).determineIfJobShouldBeRemoved/* prunner.*/assert[wl*] prunner.(*PipelineRunner).initialLoadFromStore/*[C10.noLoss] prunner.(*PipelineRunner).SaveToStore/*[C01.listKeepsLive] prunner.(*PipelineRunner).initialLoadFromStore/*[C10.listedEach]
 //@ property C13: prunner.*/lock[read] prunner.*/lock[write] prunner.*/lockproto[*] prunner.*/call-pre[*.lockmode]* prunner.*/call-pre[*.guard]* prunner.*/call-pre[*.empty]* prunner.*/ensures[unpublished] prunner/interference[captured] prunner.*/guarantee[*]
-//@ property C15: prunner.*/ensures[C15.*] prunner.(*PipelineRunner).resolveScheduleAction/ensures[range] prunner.(*PipelineRunner).isRunning/loop* prunner.(*PipelineRunner).ReadJob/* prunner.(*PipelineRunner).IterateJobs/ensures* prunner.(*PipelineRunner).ListPipelines/ensures* prunner.(*PipelineRunner).ListPipelines/loop* prunner.(*PipelineJob).isRunning/ensures* prunner.*/monitor[RI] prunner.*/ensures[ri] prunner.*/call-pre[*.ri]* prunner/writers[PipelineJob.End] prunner/writers[PipelineJob.Created] prunner/writers[PipelineJob.Start] prunner.(*PipelineRunner).SaveToStore/*[C01.listKeepsLive]
+//@ property C15: prunner.*/loop*/inv-*[C15.*] prunner.*/ensures[C15.*] prunner.(*PipelineRunner).resolveScheduleAction/ensures[range] prunner.(*PipelineRunner).isRunning/loop* prunner.(*PipelineRunner).ReadJob/* prunner.(*PipelineRunner).IterateJobs/ensures* prunner.(*PipelineRunner).ListPipelines/ensures* prunner.(*PipelineRunner).ListPipelines/loop* prunner.(*PipelineJob).isRunning/ensures* prunner.*/monitor[RI] prunner.*/ensures[ri] prunner.*/call-pre[*.ri]* prunner/writers[PipelineJob.End] prunner/writers[PipelineJob.Created] prunner/writers[PipelineJob.Start] prunner.(*PipelineRunner).SaveToStore/*[C01.listKeepsLive]
 //@ property C08: prunner.*/assert[C08.*] prunner.(*PipelineRunner).JobCompleted/ensures[C04.verdict] prunner.*/assert[C04.cancelMeansError] prunner.(jobTasks).ByName/*
 //@ property C16: prunner.*/ensures[C16.*] prunner.*/ensures[defs] prunner.(*PipelineRunner).resolveDequeueJobAction/ensures[C03.dequeueDecision] prunner/writers[PipelineJob.Tasks] prunner/writers[PipelineJob.Env] prunner/writers[PipelineJob.Variables] prunner/writers[PipelineJob.StartDelay] prunner/writers[PipelineRunner.defs] prunner.*/call-pre[(*PipelineRunner).startJob.timerDone]* prunner.buildJobTasks/* prunner.toStatus/ensures* prunner.buildPipelineGraph/assert[C02.stages] prunner.buildPipelineGraph/loop*
 //@ property C02: prunner.*/call-pre[(*PipelineRunner).startJob.notStarted]* prunner/writers[PipelineJob.Start] prunner.(*PipelineRunner).startJob/ensures[graphError] prunner.(*PipelineRunner).startJob/ensures[T] prunner.*/assert[C01.order] prunner.*/assert[C04.cancelMeansError] prunner.*/call-pre[(*PipelineRunner).startJob.offList]* prunner.(*PipelineRunner).startJobsOnWaitList/* prunner.buildPipelineGraph/*
